@@ -1020,7 +1020,25 @@ func (s *Service) copyECObjectRangeByRule(ctx context.Context, dst ChunkWriter, 
 	stageCtx, cancel := context.WithTimeout(ctx, stageTimeout)
 	defer cancel()
 
-	partHdr, firstPartStream, err := s.getECPartStream(stageCtx, cnr, parent, rule, ruleIdx, sortedNodes, 0)
+	var partHdr object.Object
+	var firstPartStream io.ReadCloser
+	var err error
+	for partIdx := 0; partIdx < int(rule.DataPartNum+rule.ParityPartNum); partIdx++ {
+		var stream io.ReadCloser
+		partHdr, stream, err = s.getECPartStream(stageCtx, cnr, parent, rule, ruleIdx, sortedNodes, partIdx)
+		if err == nil {
+			if partIdx == 0 || partHdr.Type() == object.TypeLink {
+				firstPartStream = stream
+			} else if stream != nil {
+				stream.Close()
+			}
+			break
+		}
+		if errors.Is(err, apistatus.ErrObjectAlreadyRemoved) || errors.Is(err, apistatus.ErrObjectAccessDenied) || errors.Is(err, stageCtx.Err()) ||
+			errors.As(err, new(*object.SplitInfoError)) {
+			break
+		}
+	}
 	if err != nil {
 		return 0, 0, fmt.Errorf("resolve parent payload length: %w", err)
 	}
